@@ -2554,7 +2554,9 @@ impl TypeCheckVisitor<'_> {
                     item_tys.push((item_ty, item.expr.position.clone()));
                 }
 
-                let elem_ty = unify_all(&item_tys).unwrap_or(Type::error("Could not unify list"));
+                // If the items don't unify, fall back to the expected
+                // element type rather than a (silent) error type.
+                let elem_ty = unify_all(&item_tys).unwrap_or_else(|_| expected_elem_ty.clone());
                 Type::list(elem_ty)
             }
             (Expression_::Match(scrutinee, cases), _) => self.check_match(
